@@ -79,10 +79,14 @@ pub fn build(e: &mut Ent, f: &Force) -> (StepCase, Tag) {
     // stack frame location for calls / returns: 4 bytes in RAM or DRAM, SP may carry an upper byte
     let mut sp_upper = false;
     let mut setup_stack = |e: &mut Ent, er: &mut [u32; 8], push: bool, avoid: u32| -> u32 {
-        let mut f = e.data_addr(&[Region::Ram, Region::Dram], 4, 2);
+        // 1 frame in 8 at an odd address (byte-addressed memory: "a frame at SP-4" holds for any SP)
+        let odd = e.chance(1, 8);
+        let mut f = e.data_addr(&[Region::Ram, Region::Dram], 4, if odd { 1 } else { 2 });
         if f.abs_diff(avoid & MASK24) < 64 {
             f = if (f >= 0xffbf20 && f < 0xffe000) || (f >= 0x400000 && f < 0x500000) { f + 0x400 } else { f - 0x400 };
-            f &= !1;
+            if !odd {
+                f &= !1;
+            }
         }
         let up = e.upper_byte();
         sp_upper = up != 0;
